@@ -1,5 +1,5 @@
 SPECIFICATION Spec
-CONSTANTS MaxN <- MaxNC  Variants <- VariantsC  PosMode <- PosModeC
+CONSTANTS Lengths <- LengthsC  Variants <- VariantsC  PosMode <- PosModeC
 INVARIANTS FindIfIsFirst
 ACTION_CONSTRAINT Export
 CHECK_DEADLOCK FALSE
